@@ -84,6 +84,8 @@ def strategy(tier):
 def enumerate_cases(tier):
     for case in slowlink_cases():
         yield case
+    for case in trickle_cases():
+        yield case
     for case in _controller_cases():
         yield case
     for active, ka, pka, idle in itertools.product((False, True), KEEPALIVES, KEEPALIVES, IDLES):
@@ -206,9 +208,83 @@ def execute_slowlink(case):
     return out
 
 
+def trickle_cases():
+    for active, idle, pieces in itertools.product((False, True), (3, 10), (4, 8)):
+        yield {'kind': 'trickle-in', 'active': active, 'idle': idle, 'pieces': pieces, 'size': 4000}
+
+
+def execute_trickle(case):
+    ''' The peer's segment arrives in pieces, each less than the idle time after the one before, the whole of it taking
+    longer than the idle time: octets arriving are traffic, the endpoint must not start an idle termination while they
+    keep coming, and starts one exactly idle_time after the last of them (its ACK being the last traffic). '''
+    from vlib import tcpcl_world as tw, ref9174 as r, strat9174 as s9, simloop
+    out = Outcome()
+    active = bool(case['active'])
+    idle, pieces, size = int(case['idle']), int(case['pieces']), int(case['size'])
+    cfg = tw.make_config('dtn://real/', keepalive_time=0, idle_time=idle)
+    world = tw.World(cfg, scripted=True, real_is_passive=not active)
+    end = world.real
+    hdl = end.hdl
+    world.settle()
+    world.peer_send(r.encode({'t': 'CH', 'magic': r.MAGIC.hex(), 'version': 4, 'flags': 0}))
+    world.settle()
+    world.peer_send(r.encode({'t': 'SESS_INIT', 'keepalive': 0, 'segment_mru': 1000, 'transfer_mru': 2 ** 40, 'nodeid': 'dtn://peer/', 'ext': []}))
+    world.settle()
+    if hdl._state != 'established':
+        out.fail('not-established', 'handshake ended in state %s' % hdl._state)
+        return out
+    msg = r.encode({'t': 'XFER_SEGMENT', 'flags': 3, 'id': 5, 'ext': [r.transfer_length_ext(size)], 'data': s9.content(size, 3).hex()})
+    step = (len(msg) + pieces - 1) // pieces
+    gap_ms = idle * 400
+    last_in = simloop.CLOCK.now_ms
+    for idx in range(pieces):
+        _advance(world, gap_ms)
+        if end.sock.closed or hdl._in_term:
+            out.fail('idle-termination-while-octets-arrive', 'the endpoint started termination %d ms after the latest octets arrived '
+                     '(piece %d of %d of one segment, idle time %d s, pieces every %d ms)'
+                     % (simloop.CLOCK.now_ms - last_in, idx, pieces, idle, gap_ms))
+            return out
+        world.peer_send(msg[idx * step:(idx + 1) * step])
+        world.settle()
+        last_in = simloop.CLOCK.now_ms
+    fin = [e['args'] for e in end.signals('recv_bundle_finished')]
+    if len(fin) != 1:
+        out.fail('trickled-segment-not-received', 'the whole segment arrived but %d bundles were announced' % len(fin))
+    # silence from now on: termination exactly idle_time after the last traffic (the ACK the endpoint wrote just now)
+    _advance(world, idle * 1000 - 1)
+    if hdl._in_term or end.sock.closed:
+        out.fail('idle-termination-early', 'termination started before the idle time had passed since the last traffic')
+    _advance(world, 2)
+    msgs = r.parse_stream(bytes(world.rx_pipe.log))[0]
+    terms = [m for m in msgs if m['t'] == 'SESS_TERM']
+    if not terms or terms[0]['reason'] != 1:
+        out.fail('no-idle-termination', 'no SESS_TERM with reason idle-timeout %d s after the last traffic (saw %s)' % (idle, terms))
+    for esc in world.escapes():
+        out.fail('escape:%s@%s' % (esc.exc_type, esc.frame), 'exception escaped an event-loop callback: %s: %s' % (esc.exc_type, esc.exc_msg[:120]))
+    out.nontrivial = True
+    out.label('trickle-in')
+    return out
+
+
+def _advance(world, ms):
+    ''' Let virtual time pass, firing the endpoint's timers in order. '''
+    from vlib import simloop
+    target = simloop.CLOCK.now_ms + ms
+    while True:
+        due = world.real.ctx.next_due()
+        if due is None or due > target:
+            break
+        simloop.advance_to(max(due, simloop.CLOCK.now_ms))
+        world.settle()
+    simloop.advance_to(target)
+    world.settle()
+
+
 def execute(case):
     if case.get('kind') == 'slowlink':
         return execute_slowlink(case)
+    if case.get('kind') == 'trickle-in':
+        return execute_trickle(case)
     from vlib import tcpcl_world as tw, ref9174 as r, strat9174 as s9, simloop
     import dbus
     out = Outcome()
